@@ -300,6 +300,49 @@ def _canon_tree(np, jax, t):
   return [_canon_leaf(np, x) for x in jax.tree_util.tree_leaves(t)]
 
 
+_WEAK_PAIRS = ({'float32', 'float64'}, {'int32', 'int64'})
+
+
+def _leaf_close(a, b, tol, weak=False):
+  same_dt = a['dtype'] == b['dtype'] or (weak and a['shape'] == [] and {a['dtype'], b['dtype']} in _WEAK_PAIRS)
+  if not same_dt or a['shape'] != b['shape'] or len(a['v']) != len(b['v']):
+    return False
+  for x, y in zip(a['v'], b['v']):
+    if isinstance(x, str) or isinstance(y, str):
+      if x != y:
+        return False
+    elif abs(x - y) > tol * (1 + abs(y)):       # -0.0 and 0.0 are the same value
+      return False
+  return True
+
+
+def _yield_close(a, b, tol, weak=False):
+  if a['id'] != b['id'] or len(a['out']) != len(b['out']) or (a['res'] is None) != (b['res'] is None):
+    return False
+  if not all(_leaf_close(x, y, tol, weak) for x, y in zip(a['out'], b['out'])):
+    return False
+  if a['res'] is not None:
+    if len(a['res']) != len(b['res']):
+      return False
+    for r1, r2 in zip(a['res'], b['res']):
+      if len(r1) != len(r2) or not all(_leaf_close(x, y, tol, weak) for x, y in zip(r1, r2)):
+        return False
+  return True
+
+
+def same_yields(a, b, tol=0.0, weak=False):
+  """Multiset equality of two lists of canonical yields (values within tol, relative)."""
+  left = list(b)
+  for y in a:
+    for i, z in enumerate(left):
+      if _yield_close(y, z, tol, weak):
+        left.pop(i)
+        break
+    else:
+      return False
+  return not left
+
+
 _INSTANCES = {}     # backend objects that live as long as the worker: reused across cases
 
 
@@ -398,14 +441,17 @@ def run_backend(case, backend, prog_fns):
           runs = [[canon(x) for x in f(shared, as_passed(case, clients))]]
       else:
         runs = [[canon(x) for x in f(shared, as_passed(case, clients))]]
-      ref = sorted(map(key, o['yields']))
-      o['repeat'] = 'same' if all(sorted(map(key, r)) == ref for r in runs) else 'differs (%s)' % mode
+      # op-by-op evaluation may round differently from the fused jitted computation (generic floats)
+      tol = 1e-5 if (mode == 'disable_jit' and case.get('tol')) else 0.0
+      # ... and a Python-scalar input that no jax op touches stays a Python float / int without jit (weak type)
+      weak = mode == 'disable_jit' and case.get('scalar_form') == 'py'
+      o['repeat'] = 'same' if all(same_yields(r, o['yields'], tol, weak) for r in runs) else 'differs (%s)' % mode
     except Exception as ex:  # pylint: disable=broad-except
       o['repeat'] = 'raises E%s (%s)' % (type(ex).__name__, mode)
     # the results the caller kept from the FIRST call are still valid and unchanged
     try:
       now = [canon(it) for it in kept]
-      if sorted(map(key, now)) != sorted(map(key, o['yields'])):
+      if not same_yields(now, o['yields']):
         o['kept'].append('values changed')
     except Exception as ex:  # pylint: disable=broad-except
       o['kept'].append('E' + type(ex).__name__)
@@ -495,9 +541,7 @@ def _recheck_first(case, res, first, wsr):
         cid, out = item[0], item[1]
         ys.append({'id': _int_id(case, cid), 'out': _canon_tree(np, jax, out),
                    'res': [_canon_tree(np, jax, r) for r in item[2]] if wsr else None})
-      key = lambda y: json.dumps(y, sort_keys=True)
-      same = sorted(map(key, ys)) == sorted(map(key, res[be]['yields']))
-      res[be]['first_built'] = 'same' if same else 'differs'
+      res[be]['first_built'] = 'same' if same_yields(ys, res[be]['yields']) else 'differs'
     except Exception as ex:  # pylint: disable=broad-except
       res[be]['first_built'] = 'raises E' + type(ex).__name__
 
